@@ -139,6 +139,13 @@ func genC08(t *rapid.T) c08Prog {
 		}
 	}
 	p.KeyBuf = rapid.SampledFrom([]int{0, 0, 1, 2}).Draw(t, "keyBuf")
+	// the two link lists are lists of their own: an entry may name one block both as a predecessor and as a reference
+	// (Append never does, other writers of the format may)
+	if len(p.Next) >= 1 && rapid.IntRange(0, 4).Draw(t, "refAlsoNext") == 0 {
+		x := p.Next[rapid.IntRange(0, len(p.Next)-1).Draw(t, "refAlsoNextWhich")]
+		at := rapid.IntRange(0, len(p.Refs)).Draw(t, "refAlsoNextAt")
+		p.Refs = append(p.Refs[:at:at], append([]int{x}, p.Refs[at:]...)...)
+	}
 	return p
 }
 
